@@ -61,6 +61,10 @@ CHECKS["C08"] = dict(cat="model_checking", design="DESIGN.md §4 C08",
    text="PgDDL.tla is the documented Go-to-SQL mapping as a total function over abstract table structs (column selection, SQL type, nullability, serial primary key, enum / length / jsonb CHECKs, guards with default and equality check, foreign keys from ID types or tags with ON DELETE, snake-case-plural names, composite declarations). PgDDLModel.tla fixes the type declarations Env0 and the universe of column specifications; TLC checks totality and internal consistency on it and exports it. The harness renders Env0 and model files covering every specification, runs the real SQL generator, parses its output into descriptors, and TraceDDL.tla requires descriptor equality with PgDDL's expectation.",
    note="Trusted: TLC; the SQL DDL parser of the harness. Exactness property: the expected value is defined by the property and transcribed in PgDDL.tla (ambiguous points — which integer kinds are smallint, Go-exported json:\"-\" fields being columns, the snake-case rule — are listed as assumptions in the evidence).",
    tech="TLA+ definition of the Go-to-SQL mapping (PgDDL.tla) with a TLC-checked, TLC-exported universe (PgDDLModel.tla) + verdict-style trace validation (TraceDDL.tla) of the parsed real SQL output")
+CHECKS["C16"] = dict(cat="model_checking", design="DESIGN.md §4 C16",
+   text="Directives.tla defines the expansion of comment directives on token sequences (enum placeholders to SQL literals, REFERENCES, whole-word table names, ALTER TABLE owner prefix, select keys dropped, query placeholders numbered by first occurrence with arguments typed like the compared field). DirectivesModel.tla enumerates model files (constraint and query templates x owner struct x single / grouped declaration), TLC checks that the expansion leaves no placeholder and exports the cases; each is rendered as a real model file, the real SQL and CRUD generators run, their custom statements (SQL lexer) and query functions (go/ast) are extracted as token sequences and TraceDirectives.tla requires bag equality with the expansion.",
+   note="Trusted: TLC; the SQL lexer shared by both sides; go/ast. Exactness property: the expected token sequences are the property's own definition. Templates are a fixed set (10 constraints, 3 queries); occurrences of a table name inside a string literal are left out as ambiguous.",
+   tech="TLA+ token-level definition of the directive expansion (Directives.tla), TLC-enumerated model files (DirectivesModel.tla) + verdict-style trace validation (TraceDirectives.tla) of the parsed real SQL / CRUD output")
 NOT_APPLICABLE = {}
 ALL = ["C%02d" % i for i in range(1, 21)]
 
